@@ -37,10 +37,12 @@ FirstBadSpan(e) == LET rs == Ranges(e.src)
 Total(e) == IF e.errkind \in {"", "ParseException"} THEN "" ELSE "total"
 
 Conform(e) == IF "total" \in DOMAIN e THEN Total(e) ELSE FirstBad(<<
-    <<"tokens", e.toks = Unparse(e.src)>>,
+    \* (bodies of a real model come as text: their tree is what the parser made of that text, there are no tokens to compare)
+    <<"tokens", "notoks" \in DOMAIN e \/ e.toks = Unparse(e.src)>>,
     <<"parses", e.err = "">>,
     <<"tree", e.err # "" \/ e.real = StripB(e.src)>>,
-    <<"refparse", e.err # "" \/ ~IsExprOnly(e) \/ Strip(RefParse(UE(e.src[1].e))) = e.real[1].e>>,
+    \* (asked only of a tree that has the shape of the source: whatever else came back is named by the clause before)
+    <<"refparse", e.err # "" \/ ~IsExprOnly(e) \/ e.real # StripB(e.src) \/ Strip(RefParse(UE(e.src[1].e))) = e.real[1].e>>,
     <<"spans", e.err # "" \/ e.nodes = <<>> \/ SpansOK(e)>>,
     <<"regenerates_same_text", "idem" \notin DOMAIN e \/ e.idem # "no">>,
     <<"consistent", "consistent" \notin DOMAIN e \/ e.consistent # "no">>
